@@ -18,6 +18,7 @@ RULE = ("cases: (base, wildmask, limit) triples - complete enumeration of all ma
         "length 32-t agreeing with the base outside the mask) + independent expansion; non-trivial: "
         ">=1 non-contiguous bit (single cases), a query after a reassignment after an earlier query "
         "(histories); distinct by canonical case")
+RULE += ". Directed classes added after the seeded-change rounds: limits through string members of Address / AddrGroup groups; construction-time limits via Wildcard(), fprefix, fsubnet; read-only containment questions and the Address limit attribute inside histories; subnet-mask-shaped masks with aligned bases"
 ASSUMPTIONS = ["refsem bit algebra (lib/refsem.py) is the meaning of address+wildcard",
                "expansion is only requested for k <= 16 non-contiguous bits (library default limit)"]
 
